@@ -417,6 +417,10 @@ impl<'a> System<'a> for HSys {
         if b.panic_mode.load(SeqCst) == 1 {
             panic!("harness panic (run) {} #{}", d.tag, sh.round.load(SeqCst));
         }
+        if b.panic_mode.load(SeqCst) == 4 {
+            // a string payload that ends like the world's own borrow-conflict message
+            panic!("harness panic (like-borrow) {} #{}: already borrowed", d.tag, sh.round.load(SeqCst));
+        }
         if b.panic_mode.load(SeqCst) == 3 {
             std::panic::panic_any(crate::common::HPanic { tag: d.tag, round: sh.round.load(SeqCst) });
         }
